@@ -108,8 +108,10 @@ def gen_plan(rng: random.Random, tier: str) -> dict:
     k = 0
     # a file-based addon next to the scripted ones: it gets edited (valid, broken, gone) while traffic flows; the
     # reloader looks at the file at most every 2 s
-    file_addon = rng.random() < 0.12
-    cfg["file_addon"] = file_addon
+    file_addon = rng.random() < 0.15
+    # "relay": the file addon also owns traffic through a long-lived task (takes every ChatFromSimulator and
+    # re-sends it), which has to die with the version of the file it belongs to
+    cfg["file_addon"] = (rng.choice(["observer", "relay", "relay"]) if file_addon else False)
     for _ in range(n):
         t = round(t + rng.choice([0.0, 0.001, 0.01, 0.05, 0.1]), 4)
         r = rng.choice(cfg["regions"][0])
@@ -554,16 +556,53 @@ def run_plan(plan: dict) -> RunResult:
                     "    def handle_unload(self, session_manager):\n        H.record('unload', VERSION)\n"
                     "    def handle_lludp_message(self, session, region, message):\n"
                     "        H.record('lludp', VERSION, message.name)\n"
-                    "addons = [FileAddon()]\n")
+                    + ("" if cfg["file_addon"] != "relay" else
+                       "    def handle_session_init(self, session):\n"
+                       "        self._schedule_task(self._relay(session), session=session)\n"
+                       "    async def _relay(self, session):\n"
+                       "        with session.message_handler.subscribe_async(('ChatFromSimulator',),\n"
+                       "                predicate=lambda m: H.pred(VERSION, m), take=True) as get_msg:\n"
+                       "            while True:\n"
+                       "                H.relay(VERSION, session, await get_msg())\n")
+                    + "addons = [FileAddon()]\n")
                 with open(fpath, "w") as f:
                     f.write(src)
                 vtimes[fpath] = vtimes.get("_n", 1000.0) + 1.0
                 vtimes["_n"] = vtimes[fpath]
 
+            live_version = [None]
+
             def file_sink(what, version, *a):
                 rec.add(kind="file_addon", what=what, version=version)
                 res.probe("file_addon_" + what)
+                if what == "init":
+                    live_version[0] = version
+
+            def file_pred(version, msg):
+                tag_ = tag_of_message(msg)
+                if tag_ is None:
+                    return False
+                if live_version[0] is not None and version != live_version[0]:
+                    # a newer version of the file has been loaded and initialised: nothing of the old one may
+                    # still be listening
+                    violate("C07/isolation/unloaded-addon-still-acting", tag=tag_, stale=version, live=live_version[0])
+                    return False
+                rec.add(kind="take", tag=tag_, by="subscriber", effective=not msg.finalized, file_version=version)
+                res.probe("file_addon_relay_took")
+                return True
+
+            def file_relay(version, session_, msg):
+                region_ = session_.region_by_circuit_addr(msg.sender) if msg.sender else None
+                region_ = region_ or session_.main_region
+                if region_ is None or region_.circuit is None or not region_.circuit.is_alive:
+                    return
+                try:
+                    send_copy(region_, msg, tag_of_message(msg), "file_relay")
+                except Exception:
+                    pass
             c07_file_hook.SINK = file_sink
+            c07_file_hook.PRED = file_pred
+            c07_file_hook.RELAY = file_relay
             write_addon("v1")
             addon_paths = [fpath]
             mtime_of = lambda path_: vtimes.get(str(path_))     # noqa: E731
@@ -571,7 +610,7 @@ def run_plan(plan: dict) -> RunResult:
 
             def cleanup_file_addon():
                 import shutil
-                c07_file_hook.SINK = None
+                c07_file_hook.SINK = c07_file_hook.PRED = c07_file_hook.RELAY = None
                 shutil.rmtree(scratch, ignore_errors=True)
                 for name_ in [m_ for m_ in sys.modules if m_.startswith("hippolyzer.user_addon_hsimfileaddon")]:
                     sys.modules.pop(name_, None)
